@@ -13,6 +13,7 @@ import (
 	"math"
 	"math/big"
 	mrand "math/rand"
+	"os"
 	"sort"
 	"time"
 
@@ -32,7 +33,7 @@ import (
 	"verifharness/internal/trace"
 )
 
-const bigN = 105
+var bigN = 105
 
 var keyPos = []int{0, 1, 49, 99, 100, 101, 102, 104} // list positions (0-based) of dev accounts 0..7
 
@@ -251,6 +252,10 @@ func bigNet(w *trace.Writer, st *chainStats, seed int64, v2 bool, blocks int) {
 }
 
 func bigNetMode(w *trace.Writer, seed int64, blocks int) *chainStats {
+	if v := os.Getenv("AUTHORITY_BIGN"); v != "" { // experiments only
+		fmt.Sscan(v, &bigN)
+		keyPos = []int{0, 1, 2, 3, 4, 5, 6, 7}
+	}
 	st := &chainStats{Txs: map[string]int{}, Reverted: map[string]int{}, Divergences: []string{}}
 	bigNet(w, st, seed, true, blocks)
 	bigNet(w, st, seed, false, blocks)
